@@ -44,6 +44,8 @@ ASSUMPTIONS = [
     'rrdutils.flush_noexc (unix socket of the rrd daemon) replaced by a no-op',
     'run() itself is not executed (cgroups, local disk, image unpack, mount namespace, exec of the supervisor): the harness '
     'repeats its network-related statements in the same order around the real functions',
+    'the network reply is read with ResourceServiceClient.wait(unique_name, timeout=0) instead of run()\'s wait(unique_name): '
+    'same reply, but no inotify watcher (128 instances per user in this sandbox, shared with every other process)',
     'shared-network containers: run() would wait for a network reply nobody writes; the harness supplies the host address',
     'ports are bound with real sockets on 127.0.0.<shard+1>; the global random module is seeded per case',
     'cut points of injected kills: entry of RuleMgr.create_rule/unlink_rule, EndpointsMgr.create_spec/unlink_spec/unlink_all '
@@ -114,7 +116,8 @@ def _check_ports(ctx, c, containers, case):
             ctx.violation('port-duplicate:same-container', 'container %d holds a %s port twice' % (c.idx, proto),
                           witness=dict(container=c.idx, ports=sorted(ports)), case=case)
         for o in containers:
-            if o is c or o.stage != 'started' or o.state is None or o.shared or c.shared:
+            # live = still holding its sockets (a container whose finish has begun has released its ports)
+            if o is c or o.stage != 'started' or not o.sockets or o.state is None or o.shared or c.shared:
                 continue
             theirs = [ep['real_port'] for ep in o.state['endpoints'] if ep['proto'] == proto]
             theirs += o.state['ephemeral_ports'][proto]
@@ -299,6 +302,8 @@ def _run_op(ctx, host, containers, op, initial, case, flags):
         suffix = ''
         if not complete:
             suffix = '@interrupted-finish'
+            if c.vip_released_by_interrupted_finish:
+                suffix = '@interrupted-finish-after-vip-release'
             ctx.count('interrupted_finish_attempts')
             ctx.count('interrupted_finish_by_%s' % cut[0])
             if vip_held and c.unique not in host.vips:
